@@ -429,7 +429,7 @@ Section Enc.
     set_obj s (mkO fs (ob_pats o) (ob_addl o) (ob_open o)).
 
   (* ---------- finalize ---------- *)
-  Definition conj (ps : list pred) : pred := fun j => forallb (fun p => p j) ps.
+  Definition conjp (ps : list pred) : pred := fun j => forallb (fun p => p j) ps.
 
   (* finalizeObject + the list literal of prefixItems, as the object / array constraint *)
   Definition final_C (s : state) (t : ctype) : list pred :=
@@ -448,7 +448,7 @@ Section Enc.
   Definition disjunct (s : state) (t : ctype) : option pred :=
     match final_C s t with
     | [] => if allows (st_A s) t && allows (st_K s) t then Some (kind_pred t) else None
-    | cs => if allows (st_A s) t then Some (conj cs) else None
+    | cs => if allows (st_A s) t then Some (conjp cs) else None
     end.
 
   Definition disjuncts (s : state) : list pred :=
